@@ -34,6 +34,9 @@ Lemma k_write_cache_spec : forall persistent,
   if persistent then {| w_disk := true; w_mem := false; w_evict := false |}
   else {| w_disk := false; w_mem := true; w_evict := true |}.
 Proof. intros []; reflexivity. Qed.
+Lemma k_write_cache_mem : forall on_disk,
+  k_write_cache false on_disk = {| w_disk := false; w_mem := true; w_evict := true |}.
+Proof. intros []; reflexivity. Qed.
 
 Section MemoFacts.
   Variables (A K V F : Type).
@@ -279,7 +282,7 @@ Section MemoFacts.
           rewrite dset_fresh by exact L. reflexivity.
       + destruct (lookup (key o a) c) eqn:L; cbn [is_some r_hit r_reset r_delmem r_deldisk cache ign].
         * reflexivity.
-        * rewrite k_write_cache_spec. cbn [w_disk w_mem w_evict cache ign].
+        * rewrite k_write_cache_mem. cbn [w_disk w_mem w_evict cache ign].
           rewrite od_set_fresh by exact L. reflexivity.
   Qed.
 
